@@ -49,12 +49,17 @@ def main():
             for k in ('needs_to_manifest', 'origin'):
                 if k in old:
                     meta[k] = old[k]
+        if 'SUPERSEDED' in meta.get('needs_to_manifest', ''):
+            meta['note'] = 'not evaluated against the current tree: superseded by a fix (see needs_to_manifest)'
+            json.dump(meta, open(f'{d}/meta.json', 'w'), indent=1)
+            print(pid, 'superseded')
+            continue
         a = sh(f'git apply {patch}', cwd='/repo')
         if a.returncode != 0:
             a = sh(f'git apply --3way {patch}', cwd='/repo')
         if a.returncode != 0:
             meta['error'] = 'patch does not apply to the current /repo HEAD: ' + a.stderr[:200]
-            sh('git checkout -- . && git reset -q', cwd='/repo')
+            sh('git reset -q --hard HEAD', cwd='/repo')
             json.dump(meta, open(f'{d}/meta.json', 'w'), indent=1)
             print(pid, 'PATCH DOES NOT APPLY')
             continue
@@ -72,7 +77,7 @@ def main():
             meta['caught_by'] = sorted(c for c, r in meta['checks'].items() if r['exit'] == 1)
             meta['ran'] = f"git -C /repo apply {patch}; ./check <id> quick; git -C /repo checkout -- ."
         finally:
-            sh('git checkout -- . && git reset -q', cwd='/repo')
+            sh('git reset -q --hard HEAD', cwd='/repo')
         json.dump(meta, open(f'{d}/meta.json', 'w'), indent=1)
         print(pid, 'caught by', meta.get('caught_by'), flush=True)
 
